@@ -89,6 +89,48 @@ def d1(chk, prog, ks, ploidies):
                "cnvlib.call.do_call::thresholds default", dc.loc(), "cn would decrease just above the last default threshold")
 
 
+def d1b(chk, prog):
+    chk.clause("D1b", "do_call(method='threshold'): cn comes from absolute_threshold on the caller's thresholds -- on the purity-rescaled log2 when a purity is given")
+    fi = prog.fn("cnvlib.call.do_call")
+    tb = Table(chk, "threshold-step", "do_call: which routine decides cn (method x purity), its arguments, the log2 it sees", fi.loc(), fi.qn + "::method dispatch")
+    n = 3
+    for method, purity in itertools.product(["threshold", "clonal", "none"], [None, 1, Fr(1, 2)]):
+        W.reset()
+        model = par_model()
+        seen = {}
+        res = {k: [Term.sym(f"{k}{i}", 0, INF, True) for i in range(n)] for k in ("THR", "CLO", "PURE")}
+        resc = [Term.sym(f"RESC{i}") for i in range(n)]
+
+        def thr_stub(it, cn, ploidy, thresholds, hap, seen=seen, res=res):
+            seen["thr"] = dict(log2=list(cn.data.cols["log2"].v), ploidy=ploidy, thresholds=thresholds, hap=hap)
+            return Vec(res["THR"])
+        model.prims["cnvlib.call.absolute_threshold"] = thr_stub
+        model.prims["cnvlib.call.absolute_clonal"] = lambda it, cn, *a, res=res, **k: Vec(res["CLO"])
+        model.prims["cnvlib.call.absolute_pure"] = lambda it, cn, *a, res=res, **k: Vec(res["PURE"])
+        model.prims["cnvlib.call.log2_ratios"] = lambda it, cn, *a, resc=resc, **k: Vec(resc)
+        it = Interp(prog, model)
+        v = [Term.sym(f"v{i}") for i in range(n)]
+        rows = [{"chromosome": "chr1", "start": i, "end": i + 1, "gene": "g", "log2": v[i]} for i in range(n)]
+        g = make_ga("CopyNumArray", rows, {"_classes": ["auto"] * n, "sample_id": "S"}, index="any")
+        thr = ("T0", "T1")
+        out = tb.guard(lambda: it.run(fi.qn, [g, None, method, 2, purity, True, False, None, None, thr]), f"method={method} purity={purity}")
+        if out is None:
+            continue
+        rescaled = purity is not None and purity < 1
+        c = out.data.cols
+        if method == "none":
+            ok = "cn" not in c and "thr" not in seen
+        elif method == "threshold":
+            t = seen.get("thr")
+            ok = t is not None and t["thresholds"] is thr and t["ploidy"] == 2 and t["hap"] is True and all(same(a, b) for a, b in zip(t["log2"], resc if rescaled else v)) \
+                and "cn" in c and all(same(a, b) for a, b in zip(c["cn"].v, res["THR"]))
+        else:
+            ok = "thr" not in seen and "cn" in c and all(same(a, b) for a, b in zip(c["cn"].v, res["CLO"] if rescaled else res["PURE"]))
+        ok = ok and all(same(a, b) for a, b in zip(c["log2"].v, resc if rescaled else v))
+        tb.cell(ok, dict(method=method, purity=str(purity), threshold_call=({k: repr(x) for k, x in seen["thr"].items()} if "thr" in seen else None), cn=repr(c["cn"].v) if "cn" in c else None, log2=repr(c["log2"].v)))
+    tb.done("with the threshold method cn is not the threshold step of the (purity-rescaled) log2 under the caller's thresholds")
+
+
 def d2(chk, prog):
     chk.clause("D2", "allelic split: cn1 + cn2 == cn, 0 <= cn1 <= cn, NaN exactly where BAF missing and cn > 0")
     fi = prog.fn("cnvlib.call.do_call")
@@ -180,6 +222,7 @@ def run(chk):
     chk.rule("threshold-step", "interpret absolute_threshold on one representative row per order position of log2 relative to k symbolic increasing thresholds")
     quick = chk.tier == "quick"
     d1(chk, prog, (1, 2, 3, 4) if quick else tuple(range(1, 13)), [1, 2, 3, 4, 5, 6])
+    d1b(chk, prog)
     d2(chk, prog)
     d3(chk, prog)
 
